@@ -316,6 +316,116 @@ pub fn prop(tier: Tier, seed: u64) -> Prop {
     );
 
     // ------------------------------------------------------------------------------------------
+    // (2') custom filter construction: every support value a safe caller can pass to Filter::new.
+    //      Documented contract: InvalidSupport unless the support is finite and > 0. An accepted
+    //      filter is then used (memory stays bounded: supports <= 64 on sizes <= 16).
+    // ------------------------------------------------------------------------------------------
+    {
+        fn k_one(_: f64) -> f64 {
+            1.0
+        }
+        fn k_tri(x: f64) -> f64 {
+            (1.0 - x.abs()).max(0.0)
+        }
+        fn k_bell(x: f64) -> f64 {
+            (-x * x).exp()
+        }
+        const SUPPORTS: [f64; 18] = [f64::NAN, f64::NEG_INFINITY, -1e300, -1.0, -5e-324, -0.0, 0.0, 5e-324, 1e-300, 1e-9, 0.25, 0.5, 1.0, 1.5, 3.0, 17.0, 64.0, f64::INFINITY];
+        const KERNELS: [(&str, fn(f64) -> f64); 3] = [("one", k_one), ("triangle", k_tri), ("bell", k_bell)];
+        const SIZES: [(u32, u32); 8] = [(1, 1), (1, 5), (5, 1), (4, 7), (7, 4), (16, 3), (3, 16), (2, 2)];
+        let dimsf = vec![SUPPORTS.len() as u64, KERNELS.len() as u64, SIZES.len() as u64, 3];
+        let (df, bf) = (dimsf.clone(), bes.clone());
+        p.spaces.push(
+            Space::new("custom filter construction and use: 18 support values (NaN, +-inf, negative, +-0, denormal .. 64) x 3 non-negative kernels x sizes x {Convolution, Interpolation, SuperSampling} (13 pixel types x back-ends inside, fenced)", product(&dimsf), move |idx, ctx| {
+                let mut d = [0usize; 4];
+                decode(idx, &df, &mut d);
+                let support = SUPPORTS[d[0]];
+                let (kname, kf) = KERNELS[d[1]];
+                let (n_in, n_out) = SIZES[d[2]];
+                let akind = ["Convolution", "Interpolation", "SuperSampling(2)"][d[3]];
+                ctx.sample(|| json!({"support": format!("{:e}", support), "kernel": kname, "n_in": n_in, "n_out": n_out, "alg_kind": akind}));
+                if ctx.describe_only {
+                    return;
+                }
+                let valid = support.is_finite() && support > 0.0;
+                let made = guarded(|| fir::Filter::new("custom", kf, support));
+                ctx.ops += 1;
+                let filter = match made {
+                    Err((loc, msg)) => {
+                        ctx.violation(format!("C03|Filter::new|panic|{}|{}", loc, panic_class(&msg)), || json!({"support": format!("{:e}", support), "message": msg}));
+                        return;
+                    }
+                    Ok(Err(_)) => {
+                        if valid {
+                            ctx.violation("C03|Filter::new|a finite positive support was rejected", || json!({"support": format!("{:e}", support)}));
+                        }
+                        ctx.outcome(0);
+                        ctx.nontrivial += 1;
+                        return;
+                    }
+                    Ok(Ok(f)) => f,
+                };
+                if !valid {
+                    ctx.violation("C03|Filter::new|accepted a support that is not finite and positive (documented: InvalidSupport)", || json!({"support": format!("{:e}", support), "kernel": kname}));
+                    // do not use it: an infinite support asks for an unbounded allocation
+                    return;
+                }
+                let ft = fir::FilterType::Custom(filter);
+                let alg = match d[3] {
+                    0 => fir::ResizeAlg::Convolution(ft),
+                    1 => fir::ResizeAlg::Interpolation(ft),
+                    _ => fir::ResizeAlg::SuperSampling(ft, 2),
+                };
+                // the head-room premise, decided with the implementation's own tables
+                let headroom = matches!(
+                    guarded(|| {
+                        let dump = fir::verif::coefficients(n_in, 0.0, n_in as f64, n_out, ft, d[3] != 1, false, false);
+                        (0..dump.bounds.len()).all(|j| coef::sum_abs(&dump, j) < 3.999)
+                    }),
+                    Ok(true)
+                );
+                for (pi, &pt) in ALL_PT.iter().enumerate() {
+                    let be = bf[(pi + idx as usize) % bf.len()];
+                    if pt.ck() == CK::I32 && be != BE::None {
+                        continue;
+                    }
+                    for horiz in [true, false] {
+                        let (sw, sh, dw, dh) = if horiz { (n_in, 3, n_out, 3) } else { (3, n_in, 3, n_out) };
+                        let src = content(pt, sw, sh, seed ^ idx ^ pi as u64);
+                        let r = guarded(|| {
+                            fenced(|| {
+                                let mut rz = new_resizer(be);
+                                let mut dst = Raw::filled(pt, dw, dh, 0x5A);
+                                let o = fir::ResizeOptions::new().resize_alg(alg).use_alpha(pi % 2 == 0);
+                                let s = src.image_ref();
+                                let mut dimg = fir::images::Image::from_slice_u8(dw, dh, dst.buf.as_mut(), pt.fir()).unwrap();
+                                let r = rz.resize(&s, &mut dimg, &o);
+                                (r.is_ok(), fnv(dst.bytes()))
+                            })
+                        });
+                        ctx.ops += 1;
+                        match r {
+                            Ok((ok, h)) => ctx.outcome(mix(ok as u64, h)),
+                            Err((loc, msg)) => {
+                                if !headroom {
+                                    ctx.note("custom-support calls outside the head-room premise that panicked (allowed: memory safety only)", 1);
+                                } else {
+                                    ctx.violation(format!("C03|custom support|panic|{}|{}", loc, panic_class(&msg)), || {
+                                        json!({"support": format!("{:e}", support), "kernel": kname, "src": [sw, sh], "dst": [dw, dh], "pixel": format!("{:?}", pt), "backend": format!("{:?}", be), "message": msg, "panic_at": loc})
+                                    });
+                                }
+                            }
+                        }
+                    }
+                    ctx.class(mix(mix(pt.idx() as u64, d[0] as u64), mix(d[1] as u64 + 900, d[3] as u64)));
+                }
+                ctx.nontrivial += 1;
+            })
+            .isolated(),
+        );
+    }
+
+    // ------------------------------------------------------------------------------------------
     // (2a) kernel sweep in fenced memory: every residue of kernel length / row bytes / line count
     //      (the SIMD main loops, remainders and tails) with the source rows, the destination, the
     //      coefficient vectors and the scratch images each ending at a guard page
